@@ -1,7 +1,7 @@
 (* C07 -- Peering sessions follow the RFC 4271 state machine, timers included.
    Statements only. Model: Session.Fsm (passive side, whole seconds of virtual time).  The theorems hold for EVERY
    configuration (hold time, keepalive interval, idle-hold-after-reset, prefix limit) and EVERY state or history. *)
-From Coq Require Import List ZArith Bool.
+From Coq Require Import List ZArith Bool Lia.
 From Verif Require Import Session.Fsm Session.FsmProofs.
 Import ListNotations.
 Open Scope Z_scope.
@@ -75,3 +75,25 @@ Example C07_nonvacuous :
   notifs (run ex_k ex_h) = [(12, ONotif 4 0)] /\
   s_st (run ex_k [Conn; RxOpen None 30; RxKa]) = Established /\ s_hold_t (run ex_k [Conn; RxOpen None 30; RxKa]) = Some 9.
 Proof. vm_compute. auto. Qed.
+
+(* ---- connection collision: which connection survives (model: Session.Negotiate.dominant = fsm.isDominant) *)
+From Verif Require Session.Negotiate.
+(* of two speakers that see each other's OPEN, exactly one finds itself dominant, unless identifier AND AS coincide (then
+   neither does); the decision is by the identifier as an unsigned number, the AS only breaks ties *)
+Theorem C07_collision_one_winner : forall (a b : Session.Negotiate.lconf) (oa ob : Session.Negotiate.open),
+  Session.Negotiate.o_id oa = Session.Negotiate.l_id a -> Session.Negotiate.remote_as oa = Session.Negotiate.l_as a ->
+  Session.Negotiate.o_id ob = Session.Negotiate.l_id b -> Session.Negotiate.remote_as ob = Session.Negotiate.l_as b ->
+  (Session.Negotiate.l_id a <> Session.Negotiate.l_id b \/ Session.Negotiate.l_as a <> Session.Negotiate.l_as b) ->
+  Session.Negotiate.dominant a ob = negb (Session.Negotiate.dominant b oa).
+Proof.
+  intros a b oa ob Ha1 Ha2 Hb1 Hb2 Hne. unfold Session.Negotiate.dominant. rewrite Ha1, Ha2, Hb1, Hb2.
+  destruct (Z.ltb_spec (Session.Negotiate.l_id b) (Session.Negotiate.l_id a)); destruct (Z.ltb_spec (Session.Negotiate.l_id a) (Session.Negotiate.l_id b));
+    destruct (Z.eqb_spec (Session.Negotiate.l_id a) (Session.Negotiate.l_id b)); destruct (Z.eqb_spec (Session.Negotiate.l_id b) (Session.Negotiate.l_id a));
+    destruct (Z.ltb_spec (Session.Negotiate.l_as b) (Session.Negotiate.l_as a)); destruct (Z.ltb_spec (Session.Negotiate.l_as a) (Session.Negotiate.l_as b));
+    cbn; try reflexivity; try lia.
+Qed.
+Print Assumptions C07_collision_one_winner.
+Theorem C07_collision_higher_identifier_wins : forall (l : Session.Negotiate.lconf) (o : Session.Negotiate.open),
+  Session.Negotiate.o_id o < Session.Negotiate.l_id l -> Session.Negotiate.dominant l o = true.
+Proof. intros l o H. unfold Session.Negotiate.dominant. destruct (Z.ltb_spec (Session.Negotiate.o_id o) (Session.Negotiate.l_id l)); [reflexivity|lia]. Qed.
+Print Assumptions C07_collision_higher_identifier_wins.
